@@ -53,6 +53,11 @@ def scenarios(rng, quick):
             sc = base(driver); sc.opts = ['r', 'glob']; sc.paths = insert_at(valid, [b'v[1'], pos) + [b'DEST']; sc.cls = 'bad_glob'; out.append(sc)
             sc = base(driver); sc.opts = ['r', 'glob']; sc.paths = insert_at(valid, [b'nomatch*'], pos) + [b'DEST']; sc.cls = 'empty_glob'; out.append(sc)
             sc = base(driver); sc.opts = ['r', 'glob']; sc.paths = insert_at(valid, [b'literal-missing'], pos) + [b'DEST']; sc.cls = 'empty_glob_literal'; out.append(sc)
+        # the destination is given by --target-directory and does NOT exist yet: a rejected invocation must not create it
+        for td in (b'NEWDIR', b'NEW/deep/er'):
+            for paths, opts, cls in (([b'missing', b'v1'], ['r'], 'tdir_absent_missing_source'), ([b'v1', b'vd'], [], 'tdir_absent_dir_without_recursive'), ([b'v1', b'v[1'], ['r', 'glob'], 'tdir_absent_bad_glob'),
+                                     ([b'v1', b'nomatch*'], ['r', 'glob'], 'tdir_absent_empty_glob'), ([], ['r'], 'tdir_absent_no_source')):
+                sc = base(driver, 'absent'); sc.opts = opts; sc.tdir = td; sc.paths = paths; sc.cls = cls; out.append(sc)
         # single-source classes
         sc = base(driver, 'file'); sc.opts = ['r']; sc.paths = [b'vd', b'DEST']; sc.cls = 'dir_onto_file_single'; out.append(sc)
         sc = base(driver); sc.opts = ['r']; sc.paths = [b'DEST']; sc.cls = 'no_source'; out.append(sc)
